@@ -192,6 +192,17 @@ impl<'a> PatGen<'a> {
         for _ in 0..n {
             v.push(self.term(depth, lb));
         }
+        // now and then literal alternatives one of which is a prefix of another, in either order (the start predicate
+        // of an alternation of literals is their shared prefix)
+        if !lb && self.r.chance(1, 10) {
+            const WORDS: &[&str] = &["ab", "abc", "abca", "a", "aa", "aab", "ba", "bab", "K", "Ks", "é", "éa", "x1", "x1_"];
+            let k = 2 + self.r.below(2);
+            let base = self.r.below(WORDS.len() as u64 - 1) as usize;
+            let mut ws: Vec<String> = (0..k).map(|j| WORDS[(base + j as usize) % WORDS.len()].to_string()).collect();
+            if self.r.chance(1, 2) { ws.reverse(); }
+            let a = ws.join("|");
+            if self.r.chance(1, 2) { v.push(a); } else { v = vec![format!("(?:{}){}", a, *self.r.pick(&["", "\\b", "c?", "$"]))]; }
+        }
         v.join("|")
     }
 }
@@ -316,6 +327,16 @@ pub fn shape_family() -> Vec<(String, String, Vec<String>)> {
             for _ in 0..depth { p = format!("{}{}{}{{{}}}", open, p, close, cnt); }
             let hs: Vec<String> = [3usize, 64].iter().map(|n| "a".repeat(*n)).collect();
             for f in ["", "i"] { out.push((p.clone(), f.to_string(), hs.clone())); }
+        }
+    }
+    // literal alternatives one of which is a prefix of another, in both orders: the start predicate is the shared prefix,
+    // the haystacks contain only the shorter alternative
+    for p in ["foobar|foo", "foo|foobar", "abc|ab", "ab|abc", "(?:abc|ab)x?", "abcd|abc|ab", "ab|abc|abcd", "a|ab|abc", "abc|ab|a", "(?:interface|in)\\b",
+              "éa|é", "é|éa", "(?:ab|a)(?:c|bcd)?", "(?:abc|ab)$", "(abc|ab)\\1", "abab|ab|abc", "(?:ab|abab)+c", "Ks|K", "K|Ks"] {
+        for f in ["", "i", "u"] {
+            out.push((p.replace("\\\\", "\\"), f.to_string(),
+                      ["a foo b", "xxab", "log in now", "foo", "foob", "foobar", "xfoobarx", "ab", "abc", "abcd", "a", "x\u{e9}", "\u{e9}a", "xa", "xabx", "abab", "ababc", "abcabc", "k", "xK", "ks", "\u{212A}s", ""]
+                          .iter().map(|h| h.to_string()).collect()));
         }
     }
     for c in contexts.iter() {
